@@ -527,6 +527,10 @@ func Re(errBuf *strings.Builder, validName, objName, fieldName string, tv reflec
 			break
 		}
 	}
+	if i >= l { // 单引号后没有内容, 如: re='
+		errBuf.WriteString(GetJoinFieldErr(objName, fieldName, reErr))
+		return
+	}
 
 	pattern := string(b)
 	newValidName := validName[:splitIndex] + validName[i+1:] // 重新解析下自定义消息, 这里已经排除正则部分, 处理结果为: re='|xxxx
